@@ -458,10 +458,53 @@ func TestLifecycle(t *testing.T) {
 					}()
 					time.Sleep(time.Duration(rapid.IntRange(0, 2000).Draw(t, "delayUS")) * time.Microsecond)
 				}
-				guard("Close", func() { _ = ic.Close() })
+				// every Close call returns only after the interceptor's goroutines have finished
+				// (kept at one: the property's domain has one lifecycle goroutine; two Close calls racing each other are outside it -
+				// the machinery below is exercised with closers > 1 only through VERIF_C11_CLOSERS, for experiments)
+				closers := kit.EnvInt("VERIF_C11_CLOSERS", 1)
+				type closeRet struct {
+					at       time.Time
+					inFlight int
+				}
+				rets := make([]closeRet, closers)
+				closePanics := make([]string, closers)
+				var cwg sync.WaitGroup
+				for c := 1; c < closers; c++ {
+					cwg.Add(1)
+					go func(c int) {
+						defer cwg.Done()
+						if o := kit.Recover(func() { _ = ic.Close() }); !o.OK() {
+							closePanics[c] = o.String()
+						}
+						rets[c] = closeRet{at: time.Now(), inFlight: rtcpSink.InFlight()}
+					}(c)
+				}
+				guard("Close", func() {
+					_ = ic.Close()
+					rets[0] = closeRet{at: time.Now(), inFlight: rtcpSink.InFlight()}
+				})
+				if o := kit.Guard(deadline, cwg.Wait); !o.OK() {
+					t.Fatalf("%s: one of %d concurrent Close calls did not return (ops %v): %s", name, closers, ops, o)
+				}
 				closed = true
-				if n := rtcpSink.InFlight(); n > 0 {
-					t.Fatalf("%s: Close returned while %d RTCP write(s) of the interceptor's goroutines were still in progress (ops %v)", name, n, ops)
+				for c, p := range closePanics {
+					if p != "" {
+						t.Fatalf("%s: Close call %d of %d concurrent ones: %s (ops %v)", name, c+1, closers, p, ops)
+					}
+				}
+				first := rets[0].at
+				for c, r := range rets {
+					if r.inFlight > 0 {
+						t.Fatalf("%s: Close call %d of %d returned while %d RTCP write(s) of the interceptor's goroutines were still in progress (ops %v)", name, c+1, closers, r.inFlight, ops)
+					}
+					if r.at.Before(first) {
+						first = r.at
+					}
+				}
+				for _, c := range rtcpSink.Calls() {
+					if c.At.After(first) {
+						t.Fatalf("%s: an RTCP write started %v after the first of %d Close calls had returned (ops %v)", name, c.At.Sub(first), closers, ops)
+					}
 				}
 				rtcpAfter := rtcpSink.Len()
 				close(stop)
@@ -494,6 +537,18 @@ func TestLifecycle(t *testing.T) {
 					t.Fatalf("%s: %d goroutines started by the interceptor are still running 2 s after Close returned (ops %v)\n%s", name, left-base, ops, goroutineDump())
 				}
 			},
+		}
+		actions["closeAgain"] = func(t *rapid.T) {
+			if !closed {
+				t.Skip("still open")
+			}
+			logOp("Close again")
+			trace.U(10)
+			before := rtcpSink.Len()
+			guard("second Close", func() { _ = ic.Close() }) // a panic in it is recovered by the guard and reported
+			if n := rtcpSink.Len() - before; n > 0 {
+				t.Fatalf("%s: %d RTCP writes during a repeated Close (ops %v)", name, n, ops)
+			}
 		}
 		actions["traffic2"], actions["traffic3"] = actions["traffic"], actions["traffic"]
 		actions["bindLocal2"], actions["bindRemote2"] = actions["bindLocal"], actions["bindRemote"]
